@@ -227,8 +227,139 @@ def r5(ctx):
     ctx.floor(rule, n, "C09.R5.pushes")
 
 
+NICE_FILES = {"generate/walker.rs": False, "generate/rust.rs": True}
+
+
+def _strip(e):
+    e = X.strip(e)
+    while e[0] in ("ref", "deref", "mut", "cast"):
+        e = X.strip(e[2] if e[0] == "cast" else e[1])
+    return e
+
+
+def _contexts(P, body, exprs, depth=0):
+    """the argument tuples `exprs` of a call inside `body`, with parameters of a closure replaced by what the function's own
+    calls of that closure pass: a list of tuples of origins in which no closure parameter is left (or the originals when the
+    closure is handed to someone else)"""
+    idx = [(_strip(e)[1] if _strip(e)[0] == "param" else None) for e in exprs]
+    if body.def_kind != "Closure" or depth > 2 or not any(i is not None and i >= 2 for i in idx):
+        return [(body, exprs)]
+    sites = R.own_closure_calls(P, body)
+    if not sites:
+        return [(body, exprs)]
+    out = []
+    for cb, cs, elems in sites:
+        new = []
+        for e, i in zip(exprs, idx):
+            if i is not None and i >= 2 and i - 2 < len(elems):
+                new.append(elems[i - 2])
+            else:
+                new.append(e)
+        out.extend(_contexts(P, cb, new, depth + 1))
+    return out
+
+
+def _probe_accepts(P, body, probe, discr):
+    """may the probe return true for the enum variant with discriminant `discr`?  True / False, and a description"""
+    e = _strip(probe)
+    if e[0] == "fnitem":
+        # a named function handed over as the probe (`fn is_boolean(l: &LiteralValue) -> bool`)
+        cb = P.bodies.get("%s::%s" % (body.crate, e[1])) or P.bodies.get(e[1])
+        if cb is None:
+            hb = getattr(P, "helper_bodies", {}) or {}
+            cb = hb.get("%s::%s" % (body.crate, e[1])) or hb.get(e[1])
+    elif e[0] == "agg" and e[1] == "closure":
+        cb = P.bodies.get("%s::%s" % (body.crate, e[2]))
+    else:
+        return True, "a probe that cannot be resolved (%s)" % X.render(e)[:60]
+    if cb is None:
+        return True, "an unknown closure"
+    rets = R.returned_on_paths(cb)
+    if rets is None:
+        return True, "a probe with too many paths"
+    for k, p, path in rets:
+        if k == "const" and str(p) in ("0", "false"):
+            continue
+        # does the path exclude the variant?  a discriminant switch on the path whose taken edge does not cover `discr`
+        excluded = False
+        for a, b_ in zip(path, path[1:]):
+            t = cb.blocks[a]["term"]
+            if t and t["k"] == "switch" and t.get("opty") != "bool":
+                vals = [int(v) for v in t["vals"]]
+                taken = {v for v, tg in zip(vals, t["targets"]) if tg == b_}
+                if b_ == t["otherwise"] and b_ not in t["targets"]:
+                    if discr in vals:
+                        excluded = True
+                elif taken and discr not in taken and b_ != t["otherwise"]:
+                    excluded = True
+        if not excluded:
+            return True, "the probe at %s:%d" % (cb.file, cb.line)
+    return False, "the probe at %s:%d" % (cb.file, cb.line)
+
+
+def r6(ctx):
+    rule = "C09.R6"
+    ctx.rule(rule, "names are made nice exactly once: the generator (generate/rust.rs, working on ASN.1 names) renders every literal with "
+                   "make_names_nice = true; the walker (generate/walker.rs, working on the re-parsed attributes, which already carry the "
+                   "Rust names) renders with make_names_nice = true only what its probe does not accept as an EnumeratedVariant - "
+                   "rust_variant_name is not idempotent (`m-s` -> `MS` -> `Ms`), so a second pass names a variant the generated enum "
+                   "does not have and DEFAULT_VALUE does not compile.  Arguments that are parameters of a local closure are resolved "
+                   "through the function's own calls of that closure")
+    P = ctx.program()
+    adt = R.adt_of(P, "asn1rs_model", "model::LiteralValue")
+    discr = None
+    for v in (adt or {}).get("variants", ()):
+        if v["name"] == "EnumeratedVariant":
+            discr = int(v["discr"])
+    if discr is None:
+        ctx.fail(rule, "anchor-lost:LiteralValue::EnumeratedVariant", "the enum variant was not found")
+        return
+    n = {k: 0 for k in NICE_FILES}
+    for b in P.lib_bodies("asn1rs_model"):
+        f = next((k for k in NICE_FILES if b.file.endswith(k)), None)
+        if f is None or "::tests::" in b.path or "::promoted[" in b.path:
+            continue
+        O = None
+        k = 0
+        for cs in b.calls():
+            if cs.name not in ("as_rust_const_literal", "as_rust_const_literal_expect") or "LiteralValue" not in (cs.callee or ""):
+                continue
+            O = O or X.Origins(b, P)
+            args = O.call_args(cs)
+            key = "%s#%s#%d" % (b.root or b.path, cs.name, k)
+            k += 1
+            n[f] += 1
+            bad = None
+            seen = []
+            for body, ex in _contexts(P, b, list(args[1:])):
+                flag = _strip(ex[0])
+                val = None
+                if flag[0] == "const":
+                    val = str(flag[1]) not in ("0", "false", "False")
+                seen.append("%s%s" % ("?" if val is None else str(val).lower(), ", " + X.render(_strip(ex[1]))[:60] if len(ex) > 1 else ""))
+                if NICE_FILES[f]:
+                    if val is not True:
+                        bad = "the generator renders a literal with make_names_nice = %s: an ENUMERATED default keeps its ASN.1 spelling, " \
+                              "which the generated enum does not declare" % ("false" if val is False else "an undecided value")
+                    continue
+                if val is False:
+                    continue
+                acc, why = (True, "no probe") if len(ex) < 2 else _probe_accepts(P, body, ex[1], discr)
+                if acc:
+                    bad = "the walker renders a literal with make_names_nice = %s and %s accepts an EnumeratedVariant: the variant name, " \
+                          "already a Rust name, is mangled a second time (`MS` -> `Ms`)" % ("true" if val else "an undecided value", why)
+            detail = {"function": b.path, "call": cs.loc(), "contexts (flag, probe)": seen}
+            if bad:
+                ctx.fail(rule, key, bad, cs.loc(), detail)
+            else:
+                ctx.ok(rule, key, detail)
+    ctx.floor(rule, n["generate/walker.rs"], "C09.R6.walker_sites")
+    ctx.floor(rule, n["generate/rust.rs"], "C09.R6.generator_sites")
+
+
 def run(ctx):
     r1(ctx)
     r3(ctx)
     r4(ctx)
     r5(ctx)
+    r6(ctx)
